@@ -37,3 +37,65 @@ Proof.
   unfold name_from_str. pose proof (split_on_nonnil 47 s []) as H.
   destruct (split_on 47 s []) as [|s0 r]; [congruence|]. apply comps_from_strs_nopanic.
 Qed.
+
+(* ---------- patterns: ComponentPatternFromStr / NamePatternFromStr never panic ---------- *)
+Lemma last_opt_none {A} (l : list A) : last_opt l = None -> l = [].
+Proof.
+  unfold last_opt. destruct (rev l) eqn:E; [|discriminate]. intros _.
+  rewrite <- (rev_involutive l), E. reflexivity.
+Qed.
+
+Lemma last_opt_singleton {A} (x : A) : last_opt [x] = Some x.
+Proof. reflexivity. Qed.
+
+Lemma comp_pattern_from_str_nopanic s : comp_pattern_from_str s <> PPanic.
+Proof.
+  assert (Hplain : match comp_from_str s with POk c => POk (CPComp c) | PErr => PErr | PPanic => PPanic end <> PPanic).
+  { pose proof (comp_from_str_nopanic s). destruct (comp_from_str s); [discriminate|discriminate|congruence]. }
+  unfold comp_pattern_from_str. destruct (length s <=? 0)%nat eqn:El; [exact Hplain|].
+  destruct s as [|c0 r]; [cbn in El; discriminate|].
+  destruct (negb (c0 =? 60)) eqn:E0; [exact Hplain|].
+  destruct (last_opt (c0 :: r)) as [cl|] eqn:Elast; [|apply last_opt_none in Elast; discriminate].
+  destruct (negb (cl =? 62)) eqn:E1; [discriminate|].
+  destruct (length (c0 :: r) <? 2)%nat eqn:E2.
+  { (* "<" alone: its last character is '<', not '>' *)
+    exfalso. destruct r as [|c1 r]; [|cbn in E2; discriminate].
+    rewrite last_opt_singleton in Elast. inversion Elast; subst.
+    apply negb_false_iff in E0, E1. apply N.eqb_eq in E0, E1. subst. discriminate. }
+  set (strs := split_on 61 _ []).
+  pose proof (split_on_nonnil 61 (firstn (length (c0 :: r) - 2) (skipn 1 (c0 :: r))) []) as Hne. fold strs in Hne.
+  destruct (2 <? length strs)%nat; [discriminate|].
+  destruct (length strs =? 2)%nat eqn:E3.
+  - destruct strs as [|ts [|tag rest]]; try (cbn in E3; discriminate).
+    pose proof (parse_comp_type_nopanic ts). destruct (parse_comp_type ts) as [[t f]| |]; [discriminate|discriminate|congruence].
+  - destruct strs; [congruence|discriminate].
+Qed.
+
+Lemma cpats_from_strs_nopanic l : cpats_from_strs l <> PPanic.
+Proof.
+  induction l as [|s r IH]; simpl; [discriminate|].
+  pose proof (comp_pattern_from_str_nopanic s). destruct (comp_pattern_from_str s); try congruence; try discriminate.
+  destruct (cpats_from_strs r); try congruence; discriminate.
+Qed.
+
+Lemma name_pattern_from_str_nopanic s : name_pattern_from_str s <> PPanic.
+Proof.
+  unfold name_pattern_from_str. pose proof (split_on_nonnil 47 s []) as H.
+  destruct (split_on 47 s []) as [|s0 r]; [congruence|].
+  set (strs1 := if (length s0 =? 0)%nat then r else s0 :: r).
+  destruct (0 <? length strs1)%nat eqn:E; [|apply cpats_from_strs_nopanic].
+  destruct (last_opt strs1) eqn:El; [apply cpats_from_strs_nopanic|].
+  apply last_opt_none in El. rewrite El in E. discriminate.
+Qed.
+
+(* without the len(strs) > 0 guard (the code before commit 2e94774) the empty string panics *)
+Lemma name_pattern_unguarded_panics : name_pattern_from_str_unguarded [] = PPanic.
+Proof. reflexivity. Qed.
+
+(* Name.ToFullName indexes n[len(n)-1] unconditionally: it panics exactly on the empty name *)
+Lemma to_full_name_panics_iff d n : to_full_name d n = PPanic <-> n = [].
+Proof.
+  unfold to_full_name. split.
+  - destruct (last_opt n) eqn:E; [destruct (ctyp c =? 1); discriminate|]. intros _. apply last_opt_none. exact E.
+  - intros ->. reflexivity.
+Qed.
